@@ -68,6 +68,10 @@ def profiler_record(item):
     g = S.real_graph(cfg, "legacy" if i % 2 else "taskspec", ["exc", "base", "value"][i % 3])
     req = S.real_request(cfg["req"])
     prof = Profiler()
+    # every fourth run has a second, globally registered profiler active in the same scheduler call
+    prof2 = Profiler() if i % 4 == 1 else None
+    if prof2 is not None:
+        prof2.register()
     raised = False
     err = ""
     try:
@@ -86,10 +90,22 @@ def profiler_record(item):
         with prof:
             cleared = len(prof.results) == 0
     except Exception as e:  # noqa: BLE001 - the profiler itself raised
-        return {"id": "p%d" % i, "kind": "profiler", "cfg": cfg, "posted": posted, "results": [-1], "ordered": False,
-                "cleared": False, "err": "%s: %s" % (type(e).__name__, str(e)[:100])}
-    return {"id": "p%d" % i, "kind": "profiler", "cfg": cfg, "posted": posted, "results": results, "ordered": bool(ordered),
-            "cleared": bool(cleared), "err": err, "raised": raised}
+        return [{"id": "p%d" % i, "kind": "profiler", "cfg": cfg, "posted": posted, "results": [-1], "ordered": False,
+                 "cleared": False, "err": "%s: %s" % (type(e).__name__, str(e)[:100])}]
+    finally:
+        if prof2 is not None:
+            try:
+                prof2.unregister()
+            except Exception:  # noqa: BLE001
+                pass
+    out = [{"id": "p%d" % i, "kind": "profiler", "cfg": cfg, "posted": posted, "results": results, "ordered": bool(ordered),
+            "cleared": bool(cleared), "err": err, "raised": raised}]
+    if prof2 is not None:
+        out.append({"id": "p%db" % i, "kind": "profiler", "cfg": cfg, "posted": posted,
+                    "results": [S._k(t.key) for t in prof2.results],
+                    "ordered": all(t.start_time <= t.end_time for t in prof2.results), "cleared": True, "err": err, "raised": raised,
+                    "second_profiler": True})
+    return out
 
 
 # --------------------------------------------------------------------------- cache
@@ -189,18 +205,19 @@ def core(ctx, rng, n_prof, n_graphs, n_rand, maxruns):
     cfgs = R.prepare(ctx, R.universe(rng, 4, n_prof, "some") + R.structured_configs(rng, n_prof // 3, "some"))
     # in forked children only: a thread pool created in this process before a later fork would leave
     # the forked workers with a dead pool
-    recs = pmap(profiler_record, list(enumerate(cfgs)), chunk=10, always=True)
+    recs = [r for rs in pmap(profiler_record, list(enumerate(cfgs)), chunk=10, always=True) for r in rs]
     spec, cfg = ctx.model(ctx.spec("sched", "DiagnosticsTrace.tla"), {})
     for r in recs:
         ctx.count(("prof", r["cfg"]), len(r["posted"]) >= 2)
         if r["err"]:
             ctx.violation("ProfilerRaised", "an unexpected exception under the Profiler: " + r["err"], {"kind": "profiler", "cfg": r["cfg"]})
-    good = [{k: v for k, v in r.items() if k not in ("err", "raised")} for r in recs if not r["err"]]
+    good = [{k: v for k, v in r.items() if k not in ("err", "raised", "second_profiler")} for r in recs if not r["err"]]
     rej = ctx.tlc_validate(spec, good, cfg, label="profiler-records", timeout=900)
     byid = {r["id"]: r for r in recs}
     for rid, clauses in rej.items():
         cl = clauses[0].strip('{} "').split('"')[0]
-        ctx.violation("Profiler:%s:%s" % (cl, "failing-run" if byid[rid].get("raised") else "ok-run"),
+        ctx.violation("Profiler:%s:%s%s" % (cl, "failing-run" if byid[rid].get("raised") else "ok-run",
+                                            ":two-profilers" if byid[rid].get("second_profiler") or rid + "b" in byid else ""),
                       "TLC rejects a Profiler report: %s" % clauses[0], {"kind": "profiler", "record": byid[rid]})
     if recs:
         ctx.sample({"profiler": {"posted": recs[0]["posted"], "results": recs[0]["results"]}})
@@ -259,9 +276,9 @@ def replay(ctx, obj):
         rej = ctx.tlc_validate(spec, [{"id": "c0", "kind": "cache", "cfg": c["cfg"],
                                        "runs": [{"req": o["req"], "ret": o["ret"], "raised": o["raised"]} for o in obs]}], cfg)
         return bool(rej)
-    r = profiler_record((0, c.get("cfg") or c["record"]["cfg"]))
-    print(r)
-    return bool(r["err"]) or sorted(r["results"]) != sorted(r["posted"])
+    rs = profiler_record((1, c.get("cfg") or c["record"]["cfg"]))
+    print(rs)
+    return any(bool(r["err"]) or sorted(r["results"]) != sorted(r["posted"]) for r in rs)
 
 
 def selftest(ctx):
